@@ -7,7 +7,7 @@ import re
 
 ROOT = os.path.dirname(os.path.dirname(os.path.abspath(__file__)))
 KNOWN_FILE = os.path.join(ROOT, 'KNOWN_FINDINGS.txt')
-REPLAY_DIR = os.path.join(ROOT, 'replays')
+REPLAY_DIR = os.environ.get('MC_REPLAY_DIR') or os.path.join(ROOT, 'replays')
 
 _LINE = re.compile(r'^(known|fixed):\s+property=(C\d+)\s+(?:(\S+)\s+)?key=(\S+)\s+::\s+(.*)$')
 
